@@ -4496,7 +4496,8 @@ pub fn compile_with_module_info(
         // If the top-level type is `Code(T)` we go through the new path;
         // otherwise the program has no staging and we skip directly to MIR gen.
         let expr = if matches!(top_type.to_type(), Type::Code(_)) {
-            let stage0_expr = translate_staging::translate(expr);
+            let stage0_expr =
+                translate_staging::translate_typed(expr, infer_ctx.unit_typed_escapes());
             log::trace!(
                 "ast after translate_staging: {:?}",
                 stage0_expr.to_expr().simple_print()
